@@ -17,6 +17,22 @@ var oBases = []string{
 	"a: LA {\n  b: LB\n  c: LC\n  b -> c: LE\n}\nd: LD\na.b -> d: LF\n",
 	"a: LA\nb: LB\na -> b: LE\na -> b: LF\nb -> a: LG\n",
 	"a.b.c: LC\na.b: LB\na: LA\nd: LD {\n  b: LX\n}\na.b.c -> d.b: LE\n",
+	// endpoints that exist only through a connection; an indexed reference to it
+	"a -> b: LE\n(a -> b)[0].style.stroke: red\nd: LD\nd -> a: LF\n",
+	// a chain, and a connection declared inside a container with an outside reference
+	"a -> b -> d: LE\n(b -> d)[0]: LG\nz: LZ {\n  m -> n: LF\n}\nz.(m -> n)[0].style.opacity: 0.4\n",
+}
+
+// oCollisionBase draws a container a with two children and two objects
+// outside it, all named from a small menu of auto-generated-looking names, so
+// that hoisting children out of a deleted or moved container meets name
+// collisions in every combination.
+func oCollisionBase() string {
+	names := []string{"x", "x 2", "x 3", "y"}
+	pick := func(tag string) string { return names[nd.Choose(tag, 0, len(names)-1)] }
+	c1, c2, o1, o2 := pick("c1"), pick("c2"), pick("o1"), pick("o2")
+	nd.Assume(c1 != c2 && o1 != o2)
+	return "a: LA {\n  " + c1 + ": L1\n  " + c2 + ": L2\n}\n" + o1 + ": L3\n" + o2 + ": L4\n"
 }
 
 func oCompile(text string) *d2graph.Graph {
@@ -28,14 +44,54 @@ func oCompile(text string) *d2graph.Graph {
 }
 
 func oBase() (*d2graph.Graph, string) {
-	t := oBases[nd.Choose("base", 0, nd.Param("BASES", len(oBases))-1)]
+	nb := nd.Param("BASES", len(oBases))
+	bi := nd.Choose("base", 0, nb-1+nd.Param("COLL", 0))
+	var t string
+	if bi >= nb {
+		t = oCollisionBase()
+	} else {
+		t = oBases[bi]
+	}
 	g := oCompile(t)
 	nd.Assert(g != nil, "the base diagram compiles")
 	return g, t
 }
 
 var oObjKeys = []string{"a", "b", "a.b", "a.c", "d", "z", "A", "a.z", "a.b.c", "d.b", "z.y", "B"}
-var oEdgeKeys = []string{"(a -> b)[0]", "(a -> b)[1]", "(b -> a)[0]", "a.(b -> c)[0]", "(a.b -> d)[0]", "(a.b.c -> d.b)[0]", "(a -> z)[0]", "(A -> b)[0]"}
+var oEdgeKeys = []string{"(a -> b)[0]", "(a -> b)[1]", "(b -> a)[0]", "a.(b -> c)[0]", "(a.b -> d)[0]", "(a.b.c -> d.b)[0]", "(a -> z)[0]", "(A -> b)[0]", "(b -> d)[0]", "z.(m -> n)[0]", "(d -> a)[0]"}
+
+var oEdgeCreateKeys = []string{"a -> b", "b -> a", "a.b -> a.c", "a -> z", "A -> b", "a.b -> d", "a <- b", "a -- d.b"}
+
+func oCreateKey(tag string) string {
+	if nd.Bool(tag + "edge") {
+		return oEdgeCreateKeys[nd.Choose(tag+"ek", 0, len(oEdgeCreateKeys)-1)]
+	}
+	return oObjKeys[nd.Choose(tag+"ok", 0, len(oObjKeys)-1)]
+}
+
+// oMoveArgs draws the arguments of a Move: the object key, the new key
+// (not inside the moved object itself - moving an object into its own subtree
+// is outside the operation's domain) and includeDescendants. follows reports
+// whether the descendants are expected to follow the object: when requested,
+// or when the object stays in the same container (a plain rename).
+func oMoveArgs() (key, to string, incl, follows bool) {
+	key, to, incl = oKey("k", false), oKey("to", false), nd.Bool("desc")
+	lk, lt := strings.ToLower(key), strings.ToLower(to)
+	nd.Assume(lk != lt && !strings.HasPrefix(lt, lk+"."))
+	parent := func(k string) string {
+		if i := strings.LastIndex(k, "."); i >= 0 {
+			return k[:i]
+		}
+		return ""
+	}
+	return key, to, incl, incl || parent(lk) == parent(lt)
+}
+
+func oRenameArgs() (key, nn string) {
+	key = oKey("k", false)
+	nn = []string{"z", "b", "a", "B", "x y", "c"}[nd.Choose("nn", 0, 5)]
+	return key, nn
+}
 
 func oKey(tag string, edges bool) string {
 	if edges && nd.Bool(tag+"edge") {
@@ -62,7 +118,7 @@ func oEdit(g *d2graph.Graph) (g2 *d2graph.Graph, op int, key, arg string) {
 	var err error
 	switch op {
 	case 0:
-		key = oKey("k", true)
+		key = oCreateKey("k")
 		g2, arg, err = Create(g, nil, key)
 	case 1:
 		key = oKey("k", true)
@@ -74,13 +130,12 @@ func oEdit(g *d2graph.Graph) (g2 *d2graph.Graph, op int, key, arg string) {
 		key = oKey("k", true)
 		g2, err = Delete(g, nil, key)
 	case 3:
-		key = oKey("k", false)
-		arg = []string{"z", "b", "a", "B", "x y"}[nd.Choose("nn", 0, 4)]
+		key, arg = oRenameArgs()
 		g2, _, err = Rename(g, nil, key, arg)
 	case 4:
-		key = oKey("k", false)
-		arg = oKey("to", false)
-		g2, err = Move(g, nil, key, arg, nd.Bool("desc"))
+		var incl bool
+		key, arg, incl, _ = oMoveArgs()
+		g2, err = Move(g, nil, key, arg, incl)
 	case 5:
 		key = oEdgeKeys[nd.Choose("kek", 0, len(oEdgeKeys)-1)]
 		s, d := oKey("src", false), oKey("dst", false)
@@ -154,7 +209,7 @@ func oObjByID(g *d2graph.Graph, id string) *d2graph.Object {
 
 func oEdgeByID(g *d2graph.Graph, id string) *d2graph.Edge {
 	for _, e := range g.Edges {
-		if e.AbsID() == id {
+		if strings.EqualFold(e.AbsID(), id) {
 			return e
 		}
 	}
@@ -178,11 +233,15 @@ func oParentLabel(o *d2graph.Object) string {
 }
 
 func oLine(o *d2graph.Object) string {
-	return o.AbsID() + " label=" + o.Label.Value + " shape=" + o.Shape.Value + " parent=" + oParentLabel(o)
+	par := "<root>"
+	if o.Parent != nil && o.Parent.Parent != nil {
+		par = o.Parent.AbsID()
+	}
+	return o.AbsID() + " label=" + o.Label.Value + " shape=" + o.Shape.Value + " parent=" + par
 }
 
 func oELine(e *d2graph.Edge) string {
-	return e.AbsID() + " label=" + e.Label.Value + " src=" + e.Src.Label.Value + " dst=" + e.Dst.Label.Value
+	return e.AbsID() + " label=" + e.Label.Value + " src=" + e.Src.AbsID() + " dst=" + e.Dst.AbsID()
 }
 
 // oOthersUnchanged asserts that every element of g except the listed labels
@@ -213,7 +272,7 @@ func VerifC37CreateSet() {
 	if nd.Bool("set") {
 		key := oKey("k", true)
 		v := nd.From("val", nd.Choose("vlen", 1, nd.Param("NV", 2)), "xX1 .'\"$#-")
-		isEdge := strings.Contains(key, ">")
+		isEdge := strings.Contains(key, " -") || strings.Contains(key, "<-")
 		var before string
 		if isEdge {
 			if e := oEdgeByID(g, key); e != nil {
@@ -240,7 +299,7 @@ func VerifC37CreateSet() {
 		oOthersUnchanged(g, g2, map[string]bool{before: true}, "Set")
 		return
 	}
-	key := oKey("k", true)
+	key := oCreateKey("k")
 	g2, newKey, err := Create(g, nil, key)
 	if err != nil {
 		nd.Cover("refused")
@@ -248,7 +307,7 @@ func VerifC37CreateSet() {
 	}
 	nd.Cover("created")
 	oOthersUnchanged(g, g2, nil, "Create")
-	if strings.Contains(key, ">") {
+	if strings.Contains(key, " -") || strings.Contains(key, "<-") {
 		nd.Assert(len(g2.Edges) == len(g.Edges)+1, "Create: exactly one connection is added")
 		nd.Assert(oEdgeByID(g, newKey) == nil, "Create: the returned connection ID did not exist before")
 		nd.Assert(oEdgeByID(g2, newKey) != nil, "Create: the returned connection ID exists afterwards")
@@ -270,7 +329,7 @@ func VerifC37CreateSet() {
 func VerifC38Delete() {
 	g, _ := oBase()
 	key := oKey("k", true)
-	isEdge := strings.Contains(key, ">")
+	isEdge := strings.Contains(key, " -") || strings.Contains(key, "<-")
 	g2, err := Delete(g, nil, key)
 	if err != nil {
 		nd.Cover("refused")
@@ -344,18 +403,21 @@ func VerifC38Delete() {
 // change ID; descendants that are not moved stay in the former parent.
 func VerifC39Move() {
 	g, _ := oBase()
-	key := oKey("k", false)
-	t := oObjByID(g, key)
+	var key string
 	var g2 *d2graph.Graph
 	var err error
 	incl := true
 	if nd.Bool("rename") {
-		nn := []string{"z", "b", "a", "B", "x y", "c"}[nd.Choose("nn", 0, 5)]
+		var nn string
+		key, nn = oRenameArgs()
 		g2, _, err = Rename(g, nil, key, nn)
 	} else {
-		incl = nd.Bool("desc")
-		g2, err = Move(g, nil, key, oKey("to", false), incl)
+		var to string
+		var requested bool
+		key, to, requested, incl = oMoveArgs()
+		g2, err = Move(g, nil, key, to, requested)
 	}
+	t := oObjByID(g, key)
 	if err != nil || t == nil {
 		nd.Cover("refused")
 		return
@@ -405,12 +467,11 @@ func VerifC40Deltas() {
 		deltas, derr = DeleteIDDeltas(g, nil, key)
 		g2, err = Delete(g, nil, key)
 	case 1:
-		key := oKey("k", false)
-		nn := []string{"z", "b", "a", "B", "x y", "c"}[nd.Choose("nn", 0, 5)]
+		key, nn := oRenameArgs()
 		deltas, derr = RenameIDDeltas(g, nil, key, nn)
 		g2, _, err = Rename(g, nil, key, nn)
 	case 2:
-		key, to, incl := oKey("k", false), oKey("to", false), nd.Bool("desc")
+		key, to, incl, _ := oMoveArgs()
 		deltas, derr = MoveIDDeltas(g, key, to, incl)
 		g2, err = Move(g, nil, key, to, incl)
 	case 3:
